@@ -72,7 +72,7 @@ func cmdVC(args []string) {
 		fmt.Fprintln(os.Stderr, "no such function", key)
 		os.Exit(2)
 	}
-	tr := eng.translate(&Job{Fn: f, PanicMode: *panicMode, Frame: *frame, LockMode: *lock, Prop: *prop, NoTimeouts: *notime})
+	tr := eng.translate(&Job{Fn: f, PanicMode: *panicMode, Frame: *frame, LockMode: *lock, Prop: *prop, NoTimeouts: *notime, TypeInv: os.Getenv("GOVC_TYPEINV") != ""})
 	for _, u := range tr.unsupported {
 		fmt.Println("UNSUPPORTED:", u)
 	}
